@@ -9,6 +9,7 @@ import subprocess
 import gen_text
 import gen_prog
 import gen_sem
+import rules_corr
 import vlib
 from vlib import hexs
 
@@ -444,9 +445,14 @@ def search(run, info):
                 run.violation("impl-violates-property", "syntax diagnostic label [%d,%d) in %r is not inside the file" % (
                     d["start"], d["end"], d["file"]), {"input": {"text_hex": hexs(t), "text": t}, "op": "parse"})
     sem_labels = check_sem_labels(run)
+    # the labels of the three rules on type declarations against the places the Coq models put them (C05_struct_labels,
+    # C05_enum_labels, C05_subrange_labels): a name used up to three times, subranges in every position
+    du = [[("dir/u 1.st", rules_corr.gen_decl_unit(rng))] for _ in range(400 if run.tier == "quick" else 6000)]
+    decl_n, _ = rules_corr.check_declrules(run, du, info, "c05", labels_are_property=True)
     cli_positions = check_cli_positions(run)
     return {"coverage": {
         "semantic_diagnostic_labels_checked_by_code": sem_labels,
+        "type_declaration_rule_labels_compared_with_model": decl_n,
         "cli_printed_positions_checked": cli_positions,
         "rule": "texts = fixed corpus of lexical edge cases + repository fixtures + random token soups (keywords in random "
                 "case, identifiers, numbers, strings, comments with line breaks and non-ASCII, OSCAT blocks, CRLF, FF, "
@@ -466,6 +472,8 @@ def replay(run, rep):
     if t is None:
         return 2
     op = rep.get("op", "tok")
+    if op == "declrules":
+        return rules_corr.replay_declrules(run, [tuple(x) for x in inp.get("files", [])])
     if op == "tok":
         r = vlib.run_impl([{"id": 0, "op": "tok", "text": hexs(t)}], run.workdir)[0]
         if "tokens" not in r:
